@@ -1,0 +1,19 @@
+//go:build verif
+
+package signjar
+
+import "net/http"
+
+// Hooks for the verification harness (build tag verif): expose the unexported manifest codec.
+
+func VerifSplitManifest(manifest []byte) ([][]byte, bool) { return splitManifest(manifest) }
+
+func VerifParseManifest(manifest []byte) (*FilesMap, bool, error) { return parseManifest(manifest) }
+
+func VerifParseSection(section []byte) (http.Header, error) { return parseSection(section) }
+
+func VerifKeepFile(name string) bool { return keepFile(name) }
+
+func VerifVerifySigFile(sigfile, manifest []byte) (http.Header, error) {
+	return verifySigFile(sigfile, manifest)
+}
